@@ -9,6 +9,8 @@ pub mod iv;
 pub mod model;
 pub mod q;
 pub mod sc;
+pub mod twin;
+pub mod twins;
 pub mod selftest;
 
 use std::time::Instant;
